@@ -60,6 +60,11 @@ FIXED = [
     ('FX-keyword-property-c05', 'C05', '9979704',
      '"a.if / b" read the slash as a regex start; "a.if (b) / c" as a '
      'header'),
+    ('FX-identifier-part', 'C03', '44ace81',
+     '"a1\\xe9" lexed as the two identifiers "a1" and "\\xe9"'),
+    ('FX-string-escapes', 'C03', '08852f6',
+     "string literals with backslash-space, backslash-X, backslash-U or a "
+     "backslash before a non-ASCII character rejected as unterminated"),
     ('FX-keyword-property-c01', 'C01', '9979704',
      'pretty output "({\\n  p: a.return\\n})" rejected on re-parse'),
 ]
@@ -115,7 +120,9 @@ known('K-C02-semicolon-before-block', 'C02',
 rule('K-C02-regex-then-word',
      r'^C02\|(keep|drop)\|.*(REGEX (none|ws) |lex:unterminated-regex|'
      r'\[ none \]|/ none (;|EOF)|BinOp != FunctionCall|'
-     r'fragment-is-not-one-token\|REGEX|ref-also-rejects:unexpected)')
+     r'fragment-is-not-one-token\|REGEX|ref-also-rejects:unexpected|'
+     r'ref-also-rejects:expected (\)|, or \]|:|\]|\})|'
+     r'BinOp:left kind Regex != BinOp)')
 rule('K-C02-regex-then-word',
      r'^C02\|keep\|impl-rejects-output\|Unexpected\|ref-also-rejects:'
      r'expected ;')
@@ -130,7 +137,7 @@ known('K-C03-postfix-after-newline', 'C03',
       'the operator ends the statement.  The grammar accepts the postfix '
       'form regardless, so `a\\n++b` is rejected and `a\\n++\\nb` is read as '
       '`a++; b`.', {'text': 'a \n ++ b'})
-rule('K-C03-postfix-after-newline', r'^C03\|.*(\+\+|--) ')
+rule('K-C03-postfix-after-newline', r'^C03\|.*(\+\+|--)( |$)')
 rule('K-C03-postfix-after-newline', r'^C03\|tree-differs\|.*PostfixExpr')
 known('K-C03-funcdecl-then-expression', 'C03',
       'a function declaration followed by an operator is read as a function '
@@ -162,14 +169,14 @@ known('K-C04-postfix-after-newline', 'C04',
       'no semicolon is inserted before a postfix operator on a new line',
       'same root cause as K-C03-postfix-after-newline',
       {'text': 'a \n ++ b ;'})
-rule('K-C04-postfix-after-newline', r'^C04\|.*prev=INCDEC')
-rule('K-C04-postfix-after-newline', r'^C04\|tree-differs\|.*PostfixExpr')
+rule('K-C04-postfix-after-newline', r'^C04\|.*features=.*lt-before-incdec')
 known('K-C04-restricted-keyword-then-semicolon', 'C04',
       '`break \\n ;` yields an extra empty statement',
       'same root cause as K-C03-restricted-keyword-then-semicolon',
       {'text': 'break \n ;'})
 rule('K-C04-restricted-keyword-then-semicolon',
-     r'^C04\|tree-differs\|.*length N != N first=EmptyStatement/')
+     r'^C04\|tree-differs\|.*length N != N first=EmptyStatement/.*'
+     r'features=.*restricted-keyword-lt-semicolon')
 known('K-C04-regex-after-inserted-semicolon', 'C04',
       'a regex literal cannot start the statement after an inserted '
       'semicolon',
@@ -235,7 +242,7 @@ known('K-C05-incdec-before-regex', 'C05',
       {'text': 'a\n++ /b/g'})
 rule('K-C05-incdec-before-regex', r'^C05\|[^|]*\|before=(\+\+|--)\|')
 rule('K-C05-incdec-before-regex', r'^C05\|impl-rejects\|before=ID\|'
-     r'gap=LINE-COMMENT\|tail=div\|expected=div\|')
+     r'gap=[A-Za-z-]*\|tail=div\|expected=div\|Error-parsing-regular')
 known('K-C05-after-closing-brace', 'C05',
       'a regex after a closing brace is only recognised for a plain `/` '
       'directly re-lexed by the parser',
@@ -284,6 +291,9 @@ rule('K-C13-comment-splits-restricted-production',
      r'^C13\|impl-rejects-pretty-output\|Unexpected\|ref=(line terminator '
      r'after throw|expected ;|expected while|unexpected reserved word|'
      r'expected \(|expected function name|accept)\|')
+rule('K-C13-comment-splits-restricted-production',
+     r'^C13\|impl-rejects-pretty-output\|Function-statement-requires-a-name'
+     r'\|ref=expected function name\|')
 known('K-C13-comments-rehomed', 'C13',
       'print + re-parse moves or loses comments attached to operator-'
       'anchored and placeholder nodes',
@@ -323,3 +333,35 @@ known('K-C19-python-literal-evaluation', 'C19',
       {'text': 'var x = "\\/";'})
 rule('K-C19-python-literal-evaluation',
      r'^C19\|value-differs\|atom=(str|key)-escape-(solidus|surrogate-pair)')
+
+
+# ---------------------------------------------------------------- C03 (lexeme catalogue)
+known('K-C03-identifier-escapes-and-joiners', 'C03',
+      'Unicode escape sequences and ZWNJ/ZWJ in identifiers are rejected',
+      'the identifier pattern has no alternative for \\uXXXX (7.6 '
+      'UnicodeEscapeSequence) nor for U+200C / U+200D in IdentifierPart, so '
+      '`\\u0061bc` and `a\u200d` are illegal characters.',
+      {'text': '\\u0061bc ;'})
+rule('K-C03-identifier-escapes-and-joiners',
+     r'^C03\|impl-rejects\|Illegal-character\|')
+
+# ---------------------------------------------------------------- late additions
+# (signatures first seen in the thorough tiers; same root causes)
+rule('K-C03-postfix-after-newline',
+     r'^C03\|impl-accepts\|lex:unterminated-regex\|lexical$')
+rule('K-C03-postfix-after-newline',
+     r'^C03\|tree-differs\|ES5Program:children length N != N '
+     r'first=ExprStatement/ExprStatement$')
+rule('K-C03-funcdecl-then-expression',
+     r'^C03\|impl-accepts\|unexpected (punctuator|reserved word)\|\} ws '
+     r'(,|=|in)$')
+rule('K-C03-accessor-name-forms',
+     r'^C03\|impl-rejects\|Unexpected-end-of-input-after\|NONE start get$')
+rule('K-C04-postfix-after-newline',
+     r'^C04\|impl-rejects\|prev=INCDEC\|gap=ws\|next=OPERAND\|expected=none'
+     r'\|features=-$')
+rule('K-C05-incdec-before-regex',
+     r'^C05\|tree-differs\|before=\+\|.*first=ExprStatement/ExprStatement$')
+rule('K-C05-restricted-keyword-then-semicolon',
+     r'^C05\|tree-differs\|before=(\+|typeof|return|this|get|STR|NUM|ID)\|'
+     r'.*first=EmptyStatement/')
